@@ -2036,13 +2036,21 @@ class TargetRegistry:
             return OrderedDict()
 
     def _get_closest_type(self, obj, type_tree):
-        default = None
+        matches = []
         for cur_type, sub_tree in type_tree.items():
             if isinstance(obj, cur_type):
                 sub_type = self._get_closest_type(obj, type_tree=sub_tree)
-                ret = cur_type if sub_type is None else sub_type
-                return ret
-        return default
+                matches.append(cur_type if sub_type is None else sub_type)
+        if not matches:
+            return None
+        if len(matches) > 1:
+            # several branches match (mixins, or duck types like
+            # _ObjStyleKeys): the nearest real ancestor wins
+            mro = type(obj).__mro__
+            real = [m for m in matches if m in mro]
+            if real:
+                return min(real, key=mro.index)
+        return matches[0]
 
     def _register_default_types(self):
         self.register(object)
